@@ -126,6 +126,7 @@ int main(int argc, char** argv) {
           }
           if (!strcmp(n, "mutex") && shm->counter != 5 * nt) t2.lost_update++;
           if (!strcmp(n, "scoped_lock") && shm->counter != 3 * nt) t2.lost_update++;
+          if (!strcmp(n, "tagged_cas") && shm->counter != 4 * nt) t2.lost_update++;
           if (!strcmp(n, "check_then_act") && shm->counter != nt) t2.lost_update++;
         }
       }
